@@ -297,6 +297,26 @@ fn run_pod_unwinding(n: usize, script: &[String]) -> (String, String) {
     r.unwrap_or(("destructor did not run".into(), "-".into()))
 }
 
+// ---- input type with padding where the output type carries data (layout 8/4 both; request lines end with `pair=pad`)
+#[repr(C)]
+struct TPad12 { id: u32, b: u8 }          // two scalars: moved field by field, the three padding bytes are not part of the value
+#[repr(C)]
+struct UPad12 { id: u32, ver: u32 }
+const PAD_BASE: u32 = 0xA1B2_C300;
+impl Elem for TPad12 {
+    fn make(id: u32) -> Self { TPad12 { id, b: 7 } }
+    fn label(&self) -> String { format!("T{}", self.id) }
+    fn touch(&mut self) {}
+}
+impl Elem for UPad12 {
+    // every byte of `ver` matters: it sits over `b` and the three padding bytes of the input type
+    fn make(id: u32) -> Self { UPad12 { id, ver: PAD_BASE } }
+    fn label(&self) -> String { format!("U{}.{}", self.id, self.ver.wrapping_sub(PAD_BASE)) }
+    fn touch(&mut self) { self.ver += 1; }
+}
+impl Drop for TPad12 { fn drop(&mut self) { L.with(|l| l.borrow_mut().dropped.insert((true, self.id))); log_drop(self.label()); } }
+impl Drop for UPad12 { fn drop(&mut self) { L.with(|l| l.borrow_mut().dropped.insert((false, self.id))); log_drop(self.label()); } }
+
 // ---- refusal of zero-size element types (C10): size 0 on both sides but different alignment; zero vs non-zero size ----
 trait Mk { fn mk() -> Self; }
 macro_rules! cnt { ($name:ident, $body:tt, $mk:expr, $($attr:tt)*) => {
@@ -347,6 +367,7 @@ fn dispatch(pair: &str, n: usize, script: &[String]) -> (String, String) {
         "heap" => ((16, 8, 16, 8), run_script::<THeap, UHeap>(n, script)),
         "big" => ((4096, 8, 4096, 8), run_script::<TBig, UBig>(n, script)),
         "over" => ((64, 64, 64, 64), run_script::<TOver, UOver>(n, script)),
+        "pad" => ((8, 4, 8, 4), run_script::<TPad12, UPad12>(n, script)),
         "ne-size" => ((8, 4, 16, 8), run_script::<TPlain, UWide>(n, script)),
         "ne-align" => ((16, 4, 16, 8), run_script::<TWide8, UWide16>(n, script)),
         "ne-both" => ((8, 4, 16, 16), run_script::<TPlain, UOver16>(n, script)),
@@ -356,7 +377,7 @@ fn dispatch(pair: &str, n: usize, script: &[String]) -> (String, String) {
         "ne-size-down" => ((16, 8, 8, 4), run_script::<TWide16, UPlain>(n, script)),
         _ => panic!("pair"),
     };
-    (format!("vec {} {} {} {} {} {}", lay.0, lay.1, lay.2, lay.3, n, script.join(" ")), ans)
+    (format!("vec {} {} {} {} {} {}{}", lay.0, lay.1, lay.2, lay.3, n, script.join(" "), if pair == "pad" { if script.is_empty() { "pair=pad" } else { " pair=pad" } } else { "" }), ans)
 }
 
 fn main() {
@@ -409,6 +430,7 @@ fn main() {
                 emit(if idx % 5 == 1 { "plain-w" } else { "plain" }, n, &script, &mut req, &mut imp);
                 nscripts += 1;
                 if idx % 7 == 0 { emit(if idx % 14 == 0 { "heap-w" } else { "heap" }, n, &script, &mut req, &mut imp); nscripts += 1; }
+                if idx % 11 == 3 { emit("pad", n, &script, &mut req, &mut imp); nscripts += 1; }
                 if idx % 64 == 0 {
                     let (a, b) = run_zst(n, &script);
                     writeln!(zst, "{} | {} | {}", script.join(" "), a, b).unwrap();
@@ -451,7 +473,7 @@ fn main() {
             let n: usize = t[5].parse().unwrap();
             let script: Vec<String> = t[6..].iter().map(|x| x.to_string()).collect();
             let pair = match (lay[0], lay[1], lay[2], lay[3]) {
-                (8, 4, 8, 4) => "plain", (16, 8, 16, 8) => "heap", (4096, 8, 4096, 8) => "big", (64, 64, 64, 64) => "over",
+                (8, 4, 8, 4) if t.last() == Some(&"pair=pad") => "pad", (8, 4, 8, 4) => "plain", (16, 8, 16, 8) => "heap", (4096, 8, 4096, 8) => "big", (64, 64, 64, 64) => "over",
                 (8, 4, 16, 8) => "ne-size", (16, 4, 16, 8) => "ne-align", (8, 4, 16, 16) => "ne-both", (16, 8, 16, 4) => "ne-align-down",
                 (16, 16, 16, 8) => "ne-align-down2", (16, 8, 8, 4) if t.len() > 6 && false => "ne-size-down", _ => "ne-heap",
             };
@@ -471,7 +493,7 @@ fn main() {
             let script: Vec<String> = (0..n).map(|k| {
                 if failing && k == fail_at { CODES[6 + rng.below(4)].to_string() } else { CODES[rng.below(6)].to_string() }
             }).collect();
-            let pair = if huge { "plain" } else if bigmany { "big" } else { match i % 10 { 0 | 1 | 3 => "plain", 2 => "plain-w", 4 | 6 => "heap", 5 => "heap-w", 7 => "over", 8 => if n <= 40 { "big" } else { "plain" }, _ => *rng.pick(&["ne-size", "ne-align", "ne-both", "ne-heap", "ne-align-down", "ne-align-down2", "ne-size-down"]) } };
+            let pair = if huge { "plain" } else if bigmany { "big" } else if i % 13 == 4 { "pad" } else { match i % 10 { 0 | 1 | 3 => "plain", 2 => "plain-w", 4 | 6 => "heap", 5 => "heap-w", 7 => "over", 8 => if n <= 40 { "big" } else { "plain" }, _ => *rng.pick(&["ne-size", "ne-align", "ne-both", "ne-heap", "ne-align-down", "ne-align-down2", "ne-size-down"]) } };
             emit(pair, n, &script, &mut req, &mut imp);
             nscripts += 1;
             if i % 10 == 0 {
